@@ -3,6 +3,7 @@
 -/
 import BqlVerif.Model.Compile
 import BqlVerif.Model.Placeholders
+import BqlVerif.Proofs.SubstLemmas
 set_option autoImplicit false
 namespace Bql.C09
 
@@ -90,6 +91,70 @@ theorem C09_const_binop_row_independent (op : BinOp) (a b : Value) (ta tb ty : T
 theorem C09_const_unop_row_independent (op : UnOp) (s : Bool) (a : Value) (ta ty : Ty) (env : AggEnv) (row : Row) :
     eval env row (.unop op s (.const a ta) ty) = eval [] [] (.unop op s (.const a ta) ty) := by
   simp [eval]
+
+/-! ### the whole statement: parameters = literals
+
+`Select.subst ctx` writes the value bound to every placeholder into the statement as a literal (expressions, targets,
+GROUP BY / ORDER BY keys, HAVING, FROM expressions, FROM- and IN-subqueries, to any depth). -/
+
+/-- compiling a statement in a parameter context = compiling the statement with the values written in, for every
+    statement, current table and nesting depth -/
+theorem C09_literals_compile (ctx : Ctx) (fuel : Nat) (tbl : TableDef) (sel : Select) :
+    compileSelect ctx fuel tbl (sel.subst ctx) = compileSelect ctx fuel tbl sel :=
+  compileSelect_subst ctx fuel tbl sel
+
+/-- parameters accepted by the validation of `Compiler.compile` bind every placeholder of the statement -/
+theorem C09_validated_parameters_bind (db : List TableDef) (params : Params) (sel : Select)
+    (hok : checkParams sel.placeholders params = .ok ()) :
+    ∀ np ∈ sel.placeholders, bindParam (stmtCtx db params sel) np.1 np.2 ≠ .error (.py "KeyError") ∧
+      unbound (stmtCtx db params sel) np = false := by
+  intro np hnp
+  have h := checkParams_bound db params sel hok np hnp
+  refine ⟨?_, h⟩
+  unfold unbound at h
+  intro hcon
+  rw [hcon] at h
+  cases h
+
+/-- ... so no placeholder is left in the rewritten statement -/
+theorem C09_literals_no_placeholder_left (db : List TableDef) (params : Params) (sel : Select)
+    (hok : checkParams sel.placeholders params = .ok ()) :
+    (sel.subst (stmtCtx db params sel)).placeholders = [] := by
+  rw [Select.placeholders_subst]
+  apply List.filter_eq_nil_iff.mpr
+  intro np hnp
+  simp [checkParams_bound db params sel hok np hnp]
+
+/-- **Executing a statement with placeholders = executing the statement with the parameter values written as
+    literals**, executed without parameters: the two compile to the same query (hence the same description and rows),
+    for all statements and all parameters that pass the validation. -/
+theorem C09_literals_statement (db : List TableDef) (params : Params) (sel : Select)
+    (hok : checkParams sel.placeholders params = .ok ()) :
+    compileStmt db params sel = compileStmt db .none (sel.subst (stmtCtx db params sel)) :=
+  compileStmt_literals db params sel hok
+
+/-- a statement without placeholders compiles alike under any parameters object the validation lets through -/
+theorem C09_no_placeholder_ctx_irrelevant (ctx ctx' : Ctx) (hdb : ctx.db = ctx'.db) (fuel : Nat) (tbl : TableDef)
+    (sel : Select) (h : sel.placeholders = []) :
+    compileSelect ctx fuel tbl sel = compileSelect ctx' fuel tbl sel :=
+  compileSelect_ctx ctx ctx' hdb fuel tbl sel h
+
+/-! non-vacuity: `SELECT i FROM #t WHERE i > %s AND s IN (SELECT s FROM #t WHERE i < %s)` with `(1, 3)`: the second
+    placeholder (position 40) is compiled first (subquery), yet receives the second value -/
+def demoSel : Select :=
+  .mk (some [.mk (.col "i") none "i"]) (.table "t")
+    (some (.and [.binop .gt (.col "i") (.placeholder none 26),
+                 .binop .in (.col "s") (.sub (.mk (some [.mk (.col "s") none "s"]) (.table "t")
+                    (some (.binop .lt (.col "i") (.placeholder none 40))) [] none [] [] none false))]))
+    [] none [] [] none false
+def demoParams : Params := .seq [.int 1, .int 3]
+example : checkParams demoSel.placeholders demoParams = .ok () := by rfl
+example : demoSel.subst (stmtCtx [] demoParams demoSel) =
+    .mk (some [.mk (.col "i") none "i"]) (.table "t")
+      (some (.and [.binop .gt (.col "i") (.const (.int 1)),
+                   .binop .in (.col "s") (.sub (.mk (some [.mk (.col "s") none "s"]) (.table "t")
+                      (some (.binop .lt (.col "i") (.const (.int 3)))) [] none [] [] none false))]))
+      [] none [] [] none false := by rfl
 
 /-! ### history independence -/
 
